@@ -34,11 +34,22 @@ NEIGHBOURS = [
     "m.3", ".hidden", ".dotdir/", "a.askdir/", "libdir/", "plain.txt", "zeta", "Alpha", "beta.c", "note", "q", "m",
 ]
 PARENTS = ["", "d", "a.askb", "x~", ".cachex", "sub/lib", "libs"]
+# other configured ignore patterns (index 0 = the shipped one): literal blanks, '#', a character class, an anchored prefix,
+# a pattern continued over two lines of the configuration file - with names on both sides of each alternative
+PATTS = [None, r"/My Documents$|~$|/\.cache", r"/#[^/]*#$|\.bak$|/\.cache", r"/CVS$|/core$|\.o$|/\.cache", r"/[Tt]humbs\.db$|/\.cache",
+         "/build dir$|\n /tmp files$|/\\.cache"]  # (every pattern must keep the server's own cache file out, as the shipped one does)
+NEIGHBOURS2 = ["My Documents", "MyDocuments", "My Documents2", "xMy Documents", "#auto#", "auto#", "#x", "a.bak", "a.bakx", "bak", "CVS",
+               "CVS2", "core", "score", "main.o", "main.ox", "Thumbs.db", "thumbs.db", "ThumbsXdb", "build dir", "builddir", "tmp files",
+               " tmp files", "tmpfiles"]
 
 
 @st.composite
 def _case(draw):
-    names = draw(st.lists(st.sampled_from(NEIGHBOURS), min_size=3, max_size=12, unique_by=lambda n: n.rstrip("/")))
+    patt = draw(st.sampled_from([0, 0, 0, 1, 2, 3, 4, 5]))
+    names = draw(st.lists(st.sampled_from(NEIGHBOURS + (NEIGHBOURS2 if patt else [])), min_size=3, max_size=12, unique_by=lambda n: n.rstrip("/")))
+    names = [n for n in names if n == n.strip()]
+    if len(names) < 3:
+        names += ["plain.txt", "lib", "zeta"][:3 - len(names)]
     extra = draw(st.lists(gen.names(toplevel=False), max_size=3, unique=True))
     for e in extra:
         if e not in [n.rstrip("/") for n in names]:
@@ -47,7 +58,7 @@ def _case(draw):
     if handler == "dir":
         # dot-files the ignore pattern does not cover: UMN only (see ASSUMPTIONS)
         import re
-        names = [n for n in names if not (n.startswith(".") and not re.search(gen.SHIPPED_IGNORE, "/" + n.rstrip("/")))]
+        names = [n for n in names if not (n.startswith(".") and not re.search(PATTS[patt] or gen.SHIPPED_IGNORE, "/" + n.rstrip("/")))]
         if len(names) < 2:
             names += ["plain.txt", "lib"]
     hide = []
@@ -57,7 +68,7 @@ def _case(draw):
             hows = ["namesX", "capX", "cap-", "names~"] + (["namesX/", "namesX/", "names~/"] if n.endswith("/") else [])
             h = [n.rstrip("/"), draw(st.sampled_from(hows))]
             import re as _re
-            if h[1].startswith("names") and not _re.search(gen.SHIPPED_IGNORE, "/" + h[0]):
+            if h[1].startswith("names") and not _re.search(PATTS[patt] or gen.SHIPPED_IGNORE, "/" + h[0]):
                 # (only for entries that would be listed: a './' block for a name the ignore pattern keeps out ADDS an entry)
                 # optionally a second, non-hiding block for the same entry (a title), before or after the hiding one, in the
                 # same link file or in '.Links' (which sorts before '.names'): hidden stays hidden
@@ -67,7 +78,7 @@ def _case(draw):
     # link file the OS happens to enumerate first
     ties = draw(st.sampled_from([0, 0, 0, 2, 3])) if handler == "umn" else 0
     k = len(names) + 5 + ties
-    return {"names": names, "parent": draw(st.sampled_from(PARENTS)), "handler": handler, "hide": hide, "ties": ties,
+    return {"names": names, "parent": draw(st.sampled_from(PARENTS)), "handler": handler, "hide": hide, "ties": ties, "patt": patt,
             "perm1": draw(st.permutations(list(range(k)))), "perm2": draw(st.permutations(list(range(k)))),
             "form2": draw(st.sampled_from(["http", "gemini", "gdollar", "wap", "spartan"]))}
 
@@ -159,9 +170,11 @@ def _spec(case):
     return spec, ("/" + case["parent"] if case["parent"] else "/"), content
 
 
-def _cfg(root, handler):
+def _cfg(root, handler, patt=0):
     cfg = drive.make_config(root, "shipped", abstract_entries="never", abstract_headers="off",
                             **{"handlers.dir.DirHandler::cachetime": "0"})
+    if patt:
+        cfg.set("handlers.dir.DirHandler", "ignorepatt", PATTS[patt])
     if handler == "dir":
         h = cfg.get("handlers.HandlerMultiplexer", "handlers").replace("UMN.UMNDirHandler", "dir.DirHandler")
         cfg.set("handlers.HandlerMultiplexer", "handlers", h)
@@ -172,7 +185,7 @@ def check_case(case, ctx):
     spec, dsel, content = _spec(case)
     d, root = world.build(spec)
     try:
-        cfg = _cfg(root, case["handler"])
+        cfg = _cfg(root, case["handler"], case.get("patt", 0))
         ignorepatt = cfg.get("handlers.dir.DirHandler", "ignorepatt")
         umn = case["handler"] == "umn"
         base = "" if dsel == "/" else dsel
